@@ -131,10 +131,15 @@ def write_dataset(root, world, storage):
         epitch, eroll = s.get("ego_rp", (0.0, 0.0))
         for sn, sen in enumerate(sensors):
             tok = "sd%03d_%05d" % (sn, i)
+            off = storage.get("sensor_ego_offset") if sn > 0 else None
+            tx, ty, tz = (float(ex), float(ey), float(ez))
+            if off:
+                # the other sensors fired a little later: their records carry a slightly different ego pose
+                tx, ty, tz = tx + off[0] * sn, ty + off[1] * sn, tz + off[2] * sn
             ego_rows.append(
                 {
                     "token": "ego" + tok,
-                    "translation": [float(ex), float(ey), float(ez)],
+                    "translation": [tx, ty, tz],
                     "rotation": list(rm.q_from_ypr(eyaw, epitch, eroll)),
                     "timestamp": int(s["t"]),
                 }
@@ -145,7 +150,7 @@ def write_dataset(root, world, storage):
                     "sample_token": sample_token(i),
                     "ego_pose_token": "ego" + tok,
                     "calibrated_sensor_token": "cal%03d" % sn,
-                    "filename": "data/%s/%d.bin" % (sen["channel"], i),
+                    "filename": "data/%s/%d.%s" % (sen["channel"], i, "jpg" if sen["modality"] == "camera" else "bin"),
                     "fileformat": "bin" if sen["modality"] != "camera" else "jpg",
                     "width": 1280 if sen["modality"] == "camera" else 0,
                     "height": 720 if sen["modality"] == "camera" else 0,
@@ -211,4 +216,21 @@ def write_dataset(root, world, storage):
     for name, rows in tables.items():
         with open(os.path.join(ann_dir, name + ".json"), "w") as f:
             json.dump(rows, f)
+    if storage.get("raw"):
+        _write_raw_files(root, sd_rows)
     return tables
+
+
+def _write_raw_files(root, sd_rows):
+    """Tiny raw sensor files (the loader reads them when load_raw_data is requested)."""
+    import numpy as np
+
+    for row in sd_rows:
+        path = os.path.join(root, row["filename"])
+        os.makedirs(os.path.dirname(path), exist_ok=True)
+        if row["fileformat"] == "jpg":
+            from PIL import Image
+
+            Image.new("RGB", (8, 6), (10, 20, 30)).save(path)
+        else:
+            np.arange(15, dtype=np.float32).tofile(path)
